@@ -14,6 +14,14 @@
    recorded run of the C code; every theorem holds for all kernels, in particular for those
    that ignore it.
 
+   ASSUMPTION built into this representation: the kernel operations are total Coq functions, i.e.
+   every call of the QR factorisation, the Jacobian / V-matrix update and the LU solve RETURNS
+   (with a value or with the failure indication None).  "The loop terminates" (auto_terminates)
+   is therefore a statement about the control skeleton only: it bounds the number of passes
+   through the loop body; it does not prove that _vnacommon_qr, _vnacommon_mldivide or
+   _vnacal_new_solve_update_all_v_matrices return.  (They are loops with fixed bounds over the
+   matrix dimensions; the wall-clock limit of the API scenarios is the only check of that.)
+
    Reals are Qc (exact; rounding not modelled).  INFINITY (initial best_sum_k_squared) is None. *)
 Require Import QArith Qcanon List.
 Import ListNotations.
